@@ -156,13 +156,13 @@ theorem slashLiveness_zero_bond (s : St) (r : Rollapp) (a : Addr) (q : Seq) (hp 
     (hg : getSeq s a = some q) (hz : q.tokens = 0) :
     ∃ s1, slashLiveness s r = .ok s1 ∧ s1.ras = s.ras ∧ s1.bal = s.bal ∧ s1.modBal = s.modBal ∧
       s1.burned = s.burned ∧
-      s1.seqs = s.seqs.map (fun x => if x.addr == a then { q with dishonor := q.dishonor + s.p.dishonorL } else x) := by
+      s1.seqs = s.seqs.map (fun x => if x.addr == a then { q with dishonor := q.dishonor + s.sqp.dishonorL } else x) := by
   unfold slashLiveness
   rw [hp]
   dsimp only
   rw [hg]
   dsimp only
-  have h0 : min q.tokens (max s.p.lsAbs ((s.p.lsMul.mulInt q.tokens).truncateInt).toNat) = 0 := by
+  have h0 : min q.tokens (max s.sqp.lsAbs ((s.sqp.lsMul.mulInt q.tokens).truncateInt).toNat) = 0 := by
     rw [hz]; exact Nat.zero_min _
   rw [h0]
   have hsl : slash s q 0 ⟨0⟩ none =
